@@ -315,13 +315,26 @@ func applyGraph(ctx context.Context, path string, want *schema.Schema) (stmts []
 	return stmts, nil
 }
 
+// factsOf reads the independent facts of a database file: sqlm's PRAGMA based facts plus this
+// package's reading of the foreign key constraint names (kept apart: they are compared by their own
+// rule, see diffFKNames).
 func factsOf(path string) (sqlm.Facts, error) {
+	f, _, err := factsAndNames(path)
+	return f, err
+}
+
+func factsAndNames(path string) (sqlm.Facts, []string, error) {
 	db, err := openDB(path, true)
 	if err != nil {
-		return nil, err
+		return nil, nil, err
 	}
 	defer db.Close()
-	return sqlm.DBFacts(db)
+	f, err := sqlm.DBFacts(db)
+	if err != nil {
+		return nil, nil, err
+	}
+	n, err := fkNames(db)
+	return f, n, err
 }
 
 // execScript executes an exported SQL script with go-sqlite3 on an EMPTY file — Atlas is not involved.
@@ -447,7 +460,7 @@ func lastLine(s string) string {
 // evalDB applies the oracle to the database at path. dir is a private scratch directory. With
 // atlas != "" the exports are what the CLI prints, otherwise the in-process equivalents.
 func evalDB(ctx context.Context, dir, path, atlas string, o *Outcome) {
-	orig, err := factsOf(path)
+	orig, origFK, err := factsAndNames(path)
 	if err != nil {
 		o.Inconclusive = "facts: " + err.Error()
 		return
@@ -573,11 +586,16 @@ func evalDB(ctx context.Context, dir, path, atlas string, o *Outcome) {
 			stmts, err := applyGraph(ctx, cp, g)
 			if err != nil {
 				o.atom(leg+"|apply-error|"+errKind(err.Error()), "hcl apply error", map[string]any{"error": err.Error(), "stmts": stmts})
-			} else if got, err := factsOf(cp); err != nil {
+			} else if got, gotFK, err := factsAndNames(cp); err != nil {
 				o.Inconclusive = "facts(hcl copy): " + err.Error()
-			} else if d := sqlm.DiffFacts(orig, got); len(d) > 0 {
-				for _, k := range sqlm.DiffKinds(d) {
-					o.atom(leg+"|facts|"+k, "hcl facts diff", map[string]any{"diff": d, "stmts": stmts})
+			} else {
+				if d := sqlm.DiffFacts(orig, got); len(d) > 0 {
+					for _, k := range sqlm.DiffKinds(d) {
+						o.atom(leg+"|facts|"+k, "hcl facts diff", map[string]any{"diff": d, "stmts": stmts})
+					}
+				}
+				if d := diffFKNames(origFK, gotFK); len(d) > 0 {
+					o.atom(leg+"|facts|fkname", "hcl fk names diff", map[string]any{"diff": d, "stmts": stmts})
 				}
 			}
 			sqlm.RemoveDB(cp)
@@ -591,7 +609,13 @@ func evalDB(ctx context.Context, dir, path, atlas string, o *Outcome) {
 		if err := execScript(cp, sqlText); err != nil {
 			o.atom(leg+"|exec-error|"+errKind(err.Error()), "sql exec error", err.Error())
 		} else {
-			if got, err := factsOf(cp); err != nil {
+			got, gotFK, err := factsAndNames(cp)
+			if err == nil {
+				if d := diffFKNames(origFK, gotFK); len(d) > 0 {
+					o.atom(leg+"|facts|fkname", "sql fk names diff", d)
+				}
+			}
+			if err != nil {
 				o.Inconclusive = "facts(sql copy): " + err.Error()
 			} else if plainFacts = got; len(sqlm.DiffFacts(orig, got)) > 0 {
 				d := sqlm.DiffFacts(orig, got)
